@@ -278,3 +278,146 @@ func minI(a, b int) int {
 
 	return b
 }
+
+// ---- histories with outstanding checks (C04 only): callbacks are kept and invoked later, in any
+// order, or never
+
+type outOp struct {
+	Op string `json:"op"` // chk | acc | drop
+	K  int    `json:"k"`
+	N  string `json:"n"`
+}
+
+type outScenario struct {
+	Cfg rdCfg   `json:"cfg"`
+	Ops []outOp `json:"ops"`
+}
+
+type outRun struct {
+	*rdRun
+	tok   int
+	slots map[int]func() bool
+	toks  map[int]int
+}
+
+func newOutRun(tr *vrt.Tracer, kind string, w uint, maxSeq uint64) *outRun {
+	return &outRun{rdRun: newRun(tr, kind, w, maxSeq), slots: map[int]func() bool{}, toks: map[int]int{}}
+}
+
+func (r *outRun) chk(k int, s uint64) bool {
+	accept, ok := r.det.Check(s)
+	r.tok++
+	r.tr.Emit(vrt.M{"ev": "chk", "tok": r.tok, "s": vrt.Limbs(s), "ok": ok})
+	delete(r.slots, k)
+	if ok {
+		r.slots[k], r.toks[k] = accept, r.tok
+	}
+
+	return ok
+}
+
+func (r *outRun) acc(k int) {
+	if f := r.slots[k]; f != nil {
+		fl := f()
+		r.tr.Emit(vrt.M{"ev": "acc", "tok": r.toks[k], "fl": fl})
+		delete(r.slots, k)
+	}
+}
+
+// TestVerifReplayOutTours replays the transition tours of MC_ReplayOut.
+func TestVerifReplayOutTours(t *testing.T) {
+	tr := vrt.Open()
+	defer tr.Close()
+	n := 0
+	vrt.ReadScenarios(func(line []byte) {
+		var sc outScenario
+		if err := json.Unmarshal(line, &sc); err != nil {
+			t.Fatal(err)
+		}
+		mx, _ := strconv.ParseUint(sc.Cfg.Max, 10, 64)
+		r := newOutRun(tr, sc.Cfg.Kind, sc.Cfg.W, mx)
+		for _, op := range sc.Ops {
+			switch op.Op {
+			case "chk":
+				s, _ := strconv.ParseUint(op.N, 10, 64)
+				r.chk(op.K, s)
+			case "acc":
+				r.acc(op.K)
+			default:
+				delete(r.slots, op.K)
+			}
+		}
+		n++
+	})
+	t.Logf("tours=%d events=%d", n, tr.N)
+}
+
+// TestVerifReplayOutDriver: real-scale histories with up to four outstanding callbacks.
+func TestVerifReplayOutDriver(t *testing.T) { //nolint:cyclop
+	tr := vrt.Open()
+	defer tr.Close()
+	rng := rand.New(rand.NewSource(vrt.Seed())) //nolint:gosec
+	ops := vrt.EnvInt("VERIF_OPS", 200)
+	windows := []uint{0, 1, 2, 33, 48, 64, 65, 100, 128, 200}
+	type mx struct {
+		kind string
+		max  uint64
+	}
+	maxima := []mx{
+		{"plain", 1<<16 - 1}, {"plain", 1<<64 - 1}, {"plain", 1000},
+		{"wrap", 1<<16 - 1}, {"wrap", 1<<48 - 1}, {"wrap", 1000}, {"wrap", 4095},
+	}
+	runs := 0
+	for _, w := range windows {
+		for _, m := range maxima {
+			if m.max < uint64(w) || (m.kind == "wrap" && m.max+1 < 2*uint64(w)) {
+				continue
+			}
+			r := newOutRun(tr, m.kind, w, m.max)
+			mod := m.max + 1
+			cur := uint64(rng.Intn(2*int(w) + 50))
+			if rng.Intn(3) == 0 {
+				cur = m.max - uint64(rng.Intn(int(w)+20))
+			}
+			var recent []uint64
+			for i := 0; i < ops; i++ {
+				switch c := rng.Intn(100); {
+				case c < 55:
+					var s uint64
+					switch rng.Intn(5) {
+					case 0, 1: // a little ahead of the numbers seen so far
+						s = cur + uint64(rng.Intn(4)) + 1
+					case 2: // inside or just behind the window
+						s = cur - uint64(rng.Intn(int(w)+3))
+					case 3: // a number used recently (replay)
+						if len(recent) > 0 {
+							s = recent[rng.Intn(len(recent))]
+						} else {
+							s = cur
+						}
+					default:
+						s = cur + uint64(rng.Intn(3*int(w)+70))
+					}
+					if m.kind == "wrap" {
+						s %= mod
+					}
+					if r.chk(rng.Intn(4), s) {
+						recent = append(recent, s)
+						if len(recent) > 12 {
+							recent = recent[1:]
+						}
+						if m.kind == "wrap" || s > cur {
+							cur = s
+						}
+					}
+				case c < 92:
+					r.acc(rng.Intn(4))
+				default:
+					delete(r.slots, rng.Intn(4))
+				}
+			}
+			runs++
+		}
+	}
+	t.Logf("runs=%d events=%d", runs, tr.N)
+}
